@@ -296,5 +296,10 @@ def classify(case, impl, failure):
 
 TECHNIQUE = ("Coq proofs over the same recogniser models as C10 (token lemmas shared by checker and scanner, "
              "loops over white-space separated sentences) + differential correspondence on generated sentences")
-LEVEL_TEXT = "see notes/C11.md"
-LEVEL_NOTE = "see notes/C11.md"
+LEVEL_TEXT = ("Partial. For every sentence of the modelled fragment (values of C10's good_val in any spelling the printer can "
+              "produce, separated by arbitrary non-empty white space): checker count = values written = sentence length, whole "
+              "text consumed, values = denotation, white-space invariance, reprint (C11_agree_denotes_partial, "
+              "C11_simulation_partial, C11_ws_invariant_partial, C11_reprint_partial). Alternative numeric spellings, comments, "
+              "identifiers, colours/MIDI/BLOB are in the model and compared with the implementation; NxA, ranges and arrays are "
+              "checked on the implementation against the generator's denotation only.")
+LEVEL_NOTE = "See notes/C11.md (fragment limits, known finding range-after-array)."
